@@ -144,7 +144,7 @@ func normOut(b []byte, err error) string {
 
 var c17Fresh int64
 
-func c17Calls(r *rand.Rand) []c17Call {
+func c17Calls(r *rand.Rand, dir string) []c17Call {
 	var calls []c17Call
 	spdxDoc, _ := gen.SPDXDoc(r, r.Intn(1000), 6)
 	cdxDoc, _, _ := gen.CDXTree(r, r.Intn(1000), 15, 6)
@@ -261,6 +261,32 @@ func c17Calls(r *rand.Rand) []c17Call {
 				}
 				return normOut(buf.Bytes(), err)
 			}})
+		}
+	}
+	// writes to files: every call writes its own document to its own path, all paths in ONE directory, and reads the
+	// file back; parses of one input file shared by all
+	if dir != "" {
+		var fileNo int64
+		for _, f := range []formats.Format{formats.SPDX23JSON, formats.CDX15JSON} {
+			f := f
+			doc := spdxDoc
+			if f != formats.SPDX23JSON {
+				doc = cdxDoc
+			}
+			calls = append(calls, c17Call{"write-file:" + string(f), func() string {
+				path := filepath.Join(dir, fmt.Sprintf("out-%d.json", atomic.AddInt64(&fileNo, 1)))
+				err := writer.New(writer.WithFormat(f), writer.WithRenderOptions(&native.RenderOptions{Indent: 2})).WriteFile(gen.Clone(doc), path)
+				b, rerr := os.ReadFile(path)
+				_ = os.Remove(path)
+				if err == nil && rerr != nil {
+					return "FILE-NOT-THERE-AFTER-SUCCESS"
+				}
+				return normOut(b, err)
+			}})
+		}
+		inPath := filepath.Join(dir, "in-spdx.json")
+		if os.WriteFile(inPath, spdxBytes, 0o644) == nil {
+			calls = append(calls, c17Call{"parse-file", func() string { return digestDoc(reader.New().ParseFile(inPath)) }})
 		}
 	}
 	// SPDX writes that differ in their render options: each must come out with its own indentation
@@ -448,7 +474,7 @@ func init() {
 	core.Register(&core.Prop{
 		ID: "C17", Level: "exploration",
 		Rule: "each round runs in a fresh process (library defaults; every second round begins with a cold start: the process's very first calls into the reader, writer and formats packages - lookups, registrations, writes, parses - come from 12 goroutines released together (all making the same first call, or mixed), five fresh child processes per round) with the verif yield points installed (Gosched or a seeded sub-millisecond sleep at the five interleaving windows; the hook order is logged on a global logical clock): " +
-			"(a) every call of a fixed call set (sniff JSON / tag-value / garbage inputs; parse SPDX, CycloneDX and garbage; parse with reader options; write independent documents through writers built WithFormat(F) for 3 formats; one writer and one reader shared by all goroutines; default writer) is executed once sequentially, " +
+			"(a) every call of a fixed call set (sniff JSON / tag-value / garbage inputs; parse SPDX, CycloneDX and garbage; parse with reader options; write independent documents through writers built WithFormat(F) for 3 formats; write documents to files of their own in one shared directory and read them back, parse one shared input file; one writer and one reader shared by all goroutines; default writer) is executed once sequentially, " +
 			"then G in {4,16,64} goroutines execute the calls concurrently while other goroutines churn both format registries on scratch keys; every concurrent result must equal the sequential one and a writer built WithFormat(F) must emit F; " +
 			"(a') 600 writes in a scratch format whose driver is being replaced concurrently by two distinguishable fake drivers: each write must be serialized and rendered by the same driver; " +
 			"(b) a registry history (2-4 clients, <=200 operations on 2-3 contended scratch keys, call/return stamps from one atomic clock) is recorded for the unserializer and the serializer registry and checked for linearizability against a per-key register with porcupine (timeout = inconclusive). " +
@@ -522,7 +548,13 @@ func c17Round(c *core.C) {
 	if c.K%2 == 0 && !c17ColdStart(c) {
 		return
 	}
-	calls := c17Calls(r)
+	dir, derr := scratchBase(c, "c17-", false)
+	if derr != nil {
+		c.Violatef("harness-no-scratch-directory", nil, "cannot create a scratch directory: %v", derr)
+		return
+	}
+	defer os.RemoveAll(dir)
+	calls := c17Calls(r, dir)
 	// (a) sequential oracle
 	expected := make([]string, len(calls))
 	for i, cl := range calls {
